@@ -3,6 +3,8 @@ import PhyVerif.Model.C09
 import PhyVerif.Model.C09b
 import PhyVerif.Spec.C09
 import PhyVerif.Spec.C09b
+import PhyVerif.Model.C09c
+import PhyVerif.Spec.C09c
 namespace PhyVerif.Driver
 open Lean PhyVerif PhyVerif.C09
 
@@ -17,9 +19,68 @@ def nearPeaks (W : Mat) : List Nat :=
   let m := listMax a
   (a.zipIdx.filter fun p => decide (m ≤ p.1 * (1 + 1 / 1099511627776))).map (·.2)
 
+/-- harness aid (NOT part of the model), real-valued datasets: the channels whose exact peak-to-peak amplitude is within
+the ABSOLUTE distance `eps` of the largest one (float32 subtraction in the real code: `eps` = 1e-5 × the largest
+magnitude of the array, chosen by the harness).  With `eps = 0`: the channels that tie exactly. -/
+def nearPeaksAbs (W : Mat) (eps : Rat) : List Nat :=
+  let a := chAmps W
+  let m := listMax a
+  (a.zipIdx.filter fun p => decide (m - p.1 ≤ eps)).map (·.2)
+
 /-- harness aid: `durTable` in milliseconds (entry `[t][j]`: duration of waveform `t` measured on channel `j`) -/
 def durTableMs (wfs : List Mat) (rate : Rat) : List (List Rat) :=
   (durTable wfs).map fun row => row.map fun (d : Int) => (d : Rat) / rate * 1000
+
+
+/-- JSON of the three return values of `get_amplitudes_true` on `d` (plus the self-check of `ampsVUnit_eq_mean`) -/
+def ampsJson (d : Data) (f : Rat) : Json :=
+  let (sa, resc, av) := amplitudesTrue d f
+  Json.mkObj [
+    ("amps_au", jRats (ampsAu d)),
+    ("spike_amps", jRats sa),
+    ("amps_v", jList (jOpt jRat) av),
+    ("amps_v_spec", jList (jOpt jRat) ((List.range d.wfsW.length).map (meanOver d.spikes sa))),
+    ("rescaled", jList (jOpt jRatMat) resc),
+    ("rescaled_peak", jList (jOpt jRat) (resc.map fun o => o.map fun W => listMax (chAmps W)))]
+
+/-- JSON of peak channels / durations of a waveform array -/
+def channelsJson (wfs : List Mat) (rate : Rat) : Json :=
+  Json.mkObj [("peak", jNats (peakChannels wfs)), ("durations", jInts (durations wfs)),
+    -- `_waveform_durations` in milliseconds (flat-index route) and, as a self-check of the theorem
+    -- `duration_ms_spec`, the same from the per-waveform formula
+    ("durations_ms", jRats (waveformDurations wfs rate)),
+    ("durations_ms_spec", jRats ((durations wfs).map fun (d : Int) => (d : Rat) * 1000 / rate)),
+    ("near_peaks", jList jNats (wfs.map nearPeaks)),
+    ("dur_table_ms", jRatMat (durTableMs wfs rate))]
+
+/-- everything `summaries` reports about one id space, computed from the STORED arrays by `Model/C09c`
+(`summariesUse`: the arrays are selected once); the remaining fields are harness aids and self-checks of theorems -/
+def useJson (s : Stored) (clusters : Bool) (f rate eps : Rat) : Json :=
+  let r := summariesUse s clusters f rate
+  let a := r.1
+  let d : Data := ⟨a.1, s.wmi, s.amplitudes, a.2.1⟩
+  let durs := durations a.1
+  Json.mkObj [
+    ("wfs", jList jRatMat a.1), ("spikes", jNats a.2.1), ("n_wav", jNat a.2.2),
+    ("id_count", jNat (idCount s clusters)),
+    -- ids of the space that do not occur in the stored assignment (`ampsUse_spec`: exactly the NaN entries)
+    ("no_spikes", jNats ((List.range (idCount s clusters)).filter fun t => !(assignment s clusters).contains t)),
+    ("amps", match r.2.1 with
+      | none => Json.null
+      | some (sa, resc, av) => Json.mkObj [
+          ("amps_au", jRats (ampsAu d)),
+          ("spike_amps", jRats sa),
+          ("amps_v", jList (jOpt jRat) av),
+          ("amps_v_spec", jList (jOpt jRat) ((List.range a.1.length).map (meanOver a.2.1 sa))),
+          ("rescaled", jList (jOpt jRatMat) resc),
+          ("rescaled_peak", jList (jOpt jRat) (resc.map fun o => o.map fun W => listMax (chAmps W)))]),
+    ("channels", Json.mkObj [
+      ("peak", jNats r.2.2.1),
+      ("durations_ms", jRats r.2.2.2),
+      ("durations_ms_spec", jRats (durs.map fun (x : Int) => (x : Rat) * 1000 / rate)),
+      ("near_peaks", jList jNats (a.1.map nearPeaks)),
+      ("near_peaks_abs", jList jNats (a.1.map fun W => nearPeaksAbs W eps)),
+      ("dur_table_ms", jRatMat (durTableMs a.1 rate))])]
 
 partial def runC09 (op : String) (j : Json) : R Json := do
   match op with
@@ -33,16 +94,31 @@ partial def runC09 (op : String) (j : Json) : R Json := do
     let wfs ← getRat3 j "wfs"; let wmi ← getRatMat j "wmi"
     let amps ← getRats j "amplitudes"; let spikes ← getNats j "spikes"
     let f ← getRat j "factor"
-    let d : Data := ⟨wfs, wmi, amps, spikes⟩
     -- the three RETURN VALUES of `get_amplitudes_true(sample2unit=f)`: the unit factor is applied by the model
-    let (sa, resc, av) := amplitudesTrue d f
+    pure (ampsJson ⟨wfs, wmi, amps, spikes⟩ f)
+  | "summaries" =>
+    -- both id spaces from the STORED arrays: which waveforms / assignment / number of ids `use=` selects is decided
+    -- by the model (`useArrays`, through `C08.loadClusters`), not read back from the loaded object
+    let W ← getRat3 j "templates"; let chans ← getNatss j "chans"
+    let st ← getNats j "st"; let sc ← getNats j "sc"
+    let ns ← getNat j "ns"; let nc ← getNat j "nc"
+    let wmi ← getRatMat j "wmi"; let amps ← getRats j "amplitudes"
+    let f ← getRat j "factor"; let rate ← getRat j "rate"
+    let probes ← getInts j "probes"
+    let eps ← (if hasFld j "eps" then getRat j "eps" else pure 0)
+    let s : Stored := ⟨W, chans, st, sc, ns, nc, wmi, amps⟩
+    let unw ← (if hasFld j "wm" then do
+        let wm ← getRatMat j "wm"
+        pure (Json.bool (decide (Unwhitens wm wmi nc)))
+      else pure Json.null)
     pure (Json.mkObj [
-      ("amps_au", jRats (ampsAu d)),
-      ("spike_amps", jRats sa),
-      ("amps_v", jList (jOpt jRat) av),
-      ("amps_v_spec", jList (jOpt jRat) ((List.range wfs.length).map (meanOver spikes sa))),
-      ("rescaled", jList (jOpt jRatMat) resc),
-      ("rescaled_peak", jList (jOpt jRat) (resc.map fun o => o.map fun W => listMax (chAmps W)))])
+      ("templates", useJson s false f rate eps), ("clusters", useJson s true f rate eps),
+      ("templates_probes", jInts (templatesProbes probes W)),
+      ("templates_amplitudes", jRats (amplitudesVec st amps)),
+      ("clusters_amplitudes", jRats (amplitudesVec sc amps)),
+      ("templates_present", jNats (Np.unique (st.map Int.ofNat))),
+      ("clusters_present", jNats (Np.unique (sc.map Int.ofNat))),
+      ("unwhitens", unw)])
   | "peak_amps" =>
     -- peak amplitude (largest channel peak-to-peak, `peakAmp_spec`) of waveforms given by the caller — the harness
     -- sends the REAL rescaled waveforms
@@ -54,13 +130,7 @@ partial def runC09 (op : String) (j : Json) : R Json := do
   | "channels" =>
     let wfs ← getRat3 j "wfs"
     let rate ← getRat j "rate"
-    pure (Json.mkObj [("peak", jNats (peakChannels wfs)), ("durations", jInts (durations wfs)),
-      -- `_waveform_durations` in milliseconds (flat-index route) and, as a self-check of the theorem
-      -- `duration_ms_spec`, the same from the per-waveform formula
-      ("durations_ms", jRats (waveformDurations wfs rate)),
-      ("durations_ms_spec", jRats ((durations wfs).map fun (d : Int) => (d : Rat) * 1000 / rate)),
-      ("near_peaks", jList jNats (wfs.map nearPeaks)),
-      ("dur_table_ms", jRatMat (durTableMs wfs rate))])
+    pure (channelsJson wfs rate)
   | "depths" =>
     let feat0 ← getRatMat j "feat0"; let cols ← getNatss j "cols"; let ys ← getRats j "ys"
     let st ← getNats j "spike_templates"
